@@ -20,6 +20,7 @@ class Extract:
         self.entries = []    # transition-scope entries
         self.ode_entries = []
         self.ev_entries = []
+        self.set_entries = []    # transition scope, `M[row, event_index] = 1`
         self.accs = {}       # accumulator expression -> id
         self.alias = {}      # attribute -> expression string
         self.ret = None
@@ -144,12 +145,17 @@ class Extract:
         if scope[:2] == ['event', 'transition']:
             if not tys:
                 raise Unsupported("accumulator update in the transition loop outside a type test")
-            if row not in ('Orig', 'Dest') or col not in (None, 'EvIdx') or op == 'Set' or v == 'Eqn':
+            if row not in ('Orig', 'Dest') or col not in (None, 'EvIdx') or v == 'Eqn':
                 raise Unsupported("transition-scope entry %s/%s/%s/%s" % (row, col, op, v))
             # a birth has no origin, a death no destination: reading it would raise / be None in Python
             if (tys[0] == 'B' and row == 'Orig') or (tys[0] == 'D' and row == 'Dest'):
                 raise Unsupported("%s branch reads transition.%s" % (tys[0], row))
-            self.entries.append((tys[0], acc, row, col, op, v))
+            if op == 'Set':
+                if v != 'One' or col != 'EvIdx':
+                    raise Unsupported("assignment in the transition loop that is not `M[row, event] = 1`")
+                self.set_entries.append((tys[0], acc, row))
+            else:
+                self.entries.append((tys[0], acc, row, col, op, v))
         elif scope == ['ode']:
             if row != 'OdeOrig' or col is not None:
                 raise Unsupported("ode-scope entry row/col")
@@ -239,6 +245,11 @@ def generate():
         r_res = r.resolve_sum(r.ret)
         p = extract("model/base_ode_model.py", "BaseOdeModel", "get_pureOdeVector")
         p_res = p.resolve_sum(p.ret)
+        rm = extract("model/base_ode_model.py", "BaseOdeModel", "get_ReactantMatrix")
+        rm_res = rm.resolve_sum(rm.ret)
+        if rm.entries or rm.ode_entries or rm.ev_entries or rm.post is not None or len(rm_res) != 1 \
+                or any(a != rm_res[0] for _, a, _ in rm.set_entries) or o.set_entries or v.set_entries:
+            raise Unsupported("get_ReactantMatrix is not a pure `M[row, event] = 1` loop into the returned matrix")
         for ex, nm in ((v, 'vmat'), (r, 'rate'), (p, 'pure')):
             if ex.post is not None:
                 raise Unsupported(nm + " has a post loop")
@@ -248,8 +259,9 @@ def generate():
         return "\n".join([
             "(* GENERATED from deterministic.py / base_ode_model.py: assembly loops *)",
             "From Coq Require Import List. Import ListNotations.",
-            "From PV Require Import Assembly.",
+            "From PV Require Import Assembly Reactant.",
             "Definition translator_ok := true.",
+            "Definition reactant_tab : list sentry := [" + "; ".join("{| s_ty := %s; s_row := %s |}" % (t, rw) for t, _, rw in rm.set_entries) + "].",
             "Definition ode_tab : list entry := [" + ";\n  ".join(coq_entry(e) for e in o.entries) + "].",
             "Definition ode_res : list nat := %s." % nl(ode_res),
             "Definition ode_scope : list (nat * nat * nat) := %s." % scope_list(o.ode_entries),
@@ -262,7 +274,8 @@ def generate():
             ""])
     except Unsupported as u:
         return (failed("AssemblyGen", str(u)) +
-                "From Coq Require Import List. Import ListNotations.\nFrom PV Require Import Assembly.\n"
+                "From Coq Require Import List. Import ListNotations.\nFrom PV Require Import Assembly Reactant.\n"
+                "Definition reactant_tab : list sentry := [].\n"
                 "Definition ode_tab : list entry := [].\nDefinition ode_res : list nat := [].\n"
                 "Definition ode_scope : list (nat * nat * nat) := [].\nDefinition vmat_tab : list entry := [].\n"
                 "Definition vmat_res : list nat := [].\nDefinition rate_scope : list (nat * nat * nat) := [].\n"
